@@ -497,6 +497,7 @@ func concurrent(b balancer, ncalls int) h.Scenario {
 		picked := make([]int, ncalls)
 		errs := make([]error, ncalls)
 		var finalActives []int64
+		var after []int
 		s := vs.Run(ch, vs.Config{Trace: trace}, func() {
 			var client *core.Client
 			if b.weights == nil {
@@ -524,8 +525,23 @@ func concurrent(b balancer, ncalls int) h.Scenario {
 			if actives != nil {
 				finalActives = actives()
 			}
+			if b.name == "roundrobin" {
+				// at quiescence the rotation must be whole again: two full cycles of sequential calls
+				after = make([]int, b.n)
+				for k := 0; k < 2*b.n; k++ {
+					if i, _ := pick(hd, client, "S"); i >= 0 && i < b.n {
+						after[i]++
+					}
+				}
+			}
 		})
 		if len(s.Hangs) == 0 && !s.Pruned && s.Aborted == "" {
+			for i := range after {
+				if after[i] != 2 {
+					o.Viol = append(o.Viol, h.V{Sig: b.name + "|concurrent|rotation-broken-after-concurrent-calls", What: fmt.Sprintf("%s: after the concurrent calls (picked %v) two full cycles of sequential calls served the servers %v times, want 2 each", name, picked, after)})
+					break
+				}
+			}
 			for c := range picked {
 				if picked[c] < 0 || picked[c] >= b.n {
 					o.Viol = append(o.Viol, h.V{Sig: b.name + "|concurrent|not-a-configured-server", What: fmt.Sprintf("%s: call %d picked %d err %v", name, c, picked[c], errs[c])})
